@@ -26,11 +26,13 @@ META = {
                   "error estimators and dense-output weights get their own tree conditions; (2) the real stepping "
                   "kernels are executed on symbolic (t, h, y) with an uninterpreted recorded right-hand side and must "
                   "evaluate f exactly at (t+c_i h, y+h sum a_ij k_j) and return y+h sum b_i k_i; (3) controller helpers "
-                  "are proved by path VCs (z3).",
+                  "are proved by path VCs (z3); (4) every adaptive driver (8 call sites) builds its acceptance scale from the "
+                  "requested (rtol, atol) and accepts / rejects on the tolerance-scaled norm of the kernel's embedded "
+                  "estimate and nothing else (symbolic h, estimates and scale; identity in sympy normal form).",
     "level_note": "Tolerance 1e-12 on exact residuals of float coefficients (rounding residue <= 1e-15, genuine failures >= "
                   "1e-6). Trusted: Butcher's theorem T2 (order conditions <=> local error O(h^(p+1)) => global O(h^p)). Not "
-                  "decided: 'error bounded by a modest multiple of the requested tolerance' for adaptive runs (empirical "
-                  "property of PI control). Kernels are checked for state dimension 2 (dimension-generic loops).",
+                  "decided: the GLOBAL 'error bounded by a modest multiple of the requested tolerance' for adaptive runs (its "
+                  "per-step premise - acceptance on the embedded-estimate norm in the requested scale - is under contract). Kernels are checked for state dimension 2 (dimension-generic loops).",
     "technique": "exact rooted-tree order conditions on the real tableaux + symbolic execution of stepping kernels with recorded uninterpreted rhs + z3 path VCs",
 }
 
@@ -811,8 +813,9 @@ def run(chk):
                "x**y for x>0 is an uninterpreted positive function with x>=1, y<=0 => x**y <= 1")
     chk.trust("T2 Butcher: order conditions up to p <=> consistency order p; convergence O(h^p) for Lipschitz f; "
               "continuous extensions likewise", "sympy 1.14 / z3 5.1")
-    chk.not_decided("error of adaptive integrators 'bounded by a modest multiple of the requested tolerances and shrinks "
-                    "with them' (empirical property of step-size control)")
+    chk.not_decided("GLOBAL error of adaptive integrators 'bounded by a modest multiple of the requested tolerances and shrinks "
+                    "with them' (property of step-size control + T2; what is under contract is its per-step premise: every "
+                    "accepted step has embedded-estimate norm <= 1 in the requested (rtol, atol) scale)")
     import hiten.algorithms.utils.config as cfg
     chk.obl("FASTMATH is False (no re-association licensed)", "K5 closed", [], "B4 exact evaluation",
             lambda: None if cfg.FASTMATH is False else (_ for _ in ()).throw(Refuted("fastmath-on", str(cfg.FASTMATH))))
